@@ -131,6 +131,42 @@ theorem aggregator_setters_end_to_end (L : Nat) (u : Url) (v : Bytes) (hinv : Re
   ⟨setUsername_end_to_end L u v (credOk_of_recInv u hinv) hna, setPassword_end_to_end L u v (credOk_of_recInv u hinv) hna,
    setSearch_end_to_end L u v, setHash_end_to_end L u v⟩
 
+/-- ... and `set_port`: precondition, empty value clears, tab/newline removal, leading-digit requirement,
+    16-bit range, default-port elision, in-place edit, limit check with roll-back -/
+theorem aggregator_set_port_end_to_end (L : Nat) (u : Url) (v : Bytes) (hinv : RecInv u = true) :
+    AdaVerif.Model.Agg.setPortM L (u.scheme == bFile) (defaultPort u.scheme) (AdaVerif.Model.Agg.layout (AdaVerif.Lemmas.AggL.ofUrl u)) v =
+      if u.cannotHaveUsernamePasswordPort then (AdaVerif.Model.Agg.layout (AdaVerif.Lemmas.AggL.ofUrl u), false)
+      else if v.isEmpty then (AdaVerif.Model.Agg.layout (AdaVerif.Lemmas.AggL.ofUrl (setPort u v)), true)
+      else match stripTN v with
+        | [] => (AdaVerif.Model.Agg.layout (AdaVerif.Lemmas.AggL.ofUrl u), true)
+        | c :: _ =>
+          if !isAsciiDigit c then (AdaVerif.Model.Agg.layout (AdaVerif.Lemmas.AggL.ofUrl u), false)
+          else if parseRadix 10 ((stripTN v).takeWhile isAsciiDigit) > 65535 then (AdaVerif.Model.Agg.layout (AdaVerif.Lemmas.AggL.ofUrl u), false)
+          else if (AdaVerif.Model.Agg.layout (AdaVerif.Lemmas.AggL.ofUrl (setPort u v))).buf.length ≤ L then
+            (AdaVerif.Model.Agg.layout (AdaVerif.Lemmas.AggL.ofUrl (setPort u v)), true)
+          else (AdaVerif.Model.Agg.layout (AdaVerif.Lemmas.AggL.ofUrl u), false) :=
+  AdaVerif.Lemmas.AggL.setPort_end_to_end L u v (AdaVerif.Lemmas.AggL.credOk_of_recInv u hinv)
+
+/-- ... and the protocol setter's state-override part (the three refusals, the scheme replacement in the
+    buffer, removal of a port that is the new scheme's default, the limit check) -/
+theorem aggregator_set_protocol_end_to_end (L : Nat) (u : Url) (s : Bytes) (hinv : RecInv u = true) :
+    (AdaVerif.Model.Agg.setProtocolCoreM L u.isSpecial (u.scheme == bFile) (AdaVerif.Model.Agg.layout (AdaVerif.Lemmas.AggL.ofUrl u)) s).1 =
+      if (AdaVerif.Model.Agg.layout (AdaVerif.Lemmas.AggL.ofUrl (protocolCore u s))).buf.length ≤ L
+      then AdaVerif.Model.Agg.layout (AdaVerif.Lemmas.AggL.ofUrl (protocolCore u s))
+      else AdaVerif.Model.Agg.layout (AdaVerif.Lemmas.AggL.ofUrl u) := by
+  have hinv' := hinv
+  simp only [RecInv, Bool.and_eq_true, Bool.or_eq_true, Bool.not_eq_true'] at hinv'
+  obtain ⟨⟨⟨⟨⟨hs, _⟩, hspec⟩, _⟩, _⟩, _⟩ := hinv'
+  have hsch : u.scheme ≠ [] := by
+    intro h; rw [h] at hs; simp [schemeOk] at hs
+  have hfile : u.scheme = bFile → u.host.isSome = true := by
+    intro hf
+    rcases hspec with h | h
+    · have : u.isSpecial = true := by simp [Url.isSpecial, hf, isSpecialScheme]
+      rw [this] at h; cases h
+    · exact h.1.1.1
+  exact AdaVerif.Lemmas.AggL.setProtocolCore_end_to_end L u s (AdaVerif.Lemmas.AggL.credOk_of_recInv u hinv) hsch hfile
+
 /-! ### non-vacuity -/
 def noIdna : Idna := ⟨fun _ => none⟩
 example : (setPort { scheme := bHttps, host := some (.domain (ofStr "h")), path := [[]] } (ofStr "8080")).port = some 8080 := by
